@@ -19,7 +19,7 @@ Inductive case :=
 | CAxis (data : list Q) (fb : option Q) (expect : res (Q * Q))
 | CAffAxis (xx yy : list Q) (fb : option (Q * Q)) (expect : res aff)
 | CResAff (tol : Q) (m : aff) (expect : res (Q * Q))
-(* range(*slice(a, b, c).indices(n)) *)
+(* the indices a Python slice selects: range over slice(a, b, c).indices(n) *)
 | CSlice (n : Z) (s : pyslice) (expect : res (list Z))
 (* xr_coords(gbox, name) and wrap_xr(...) as snapshots *)
 | CCoords (tol : Q) (b : anybox) (name : option string) (expect : res coords)
